@@ -353,24 +353,56 @@ func roundtrip(r *RunCtx) {
 	w := newWorld(r, c.Choose(3, "cfg.syn") == 0, vectorsBuild && c.Bool("cfg.vec"))
 	defer w.CloseAll()
 	n := 1 + c.Choose(4, "rt.n")
+	similar := c.Prob(1, 4, "rt.similar")
+	if similar {
+		// a row of builds of about the same size (what a steady indexing load looks
+		// like to the pooled builder and its size estimates)
+		n = 3 + c.Choose(4, "rt.similarn")
+	}
+	nd := w.genBatchSize()
+	images := map[*SegH][]byte{}
 	for i := 0; i < n; i++ {
 		if i > 0 && c.Bool("rt.chunkmode") {
 			zap.DefaultChunkMode = chunkModes[c.Choose(len(chunkModes), "rt.mode")]
 		}
-		spec := genBatch(c, w.Cfg, w.genBatchSize(), w.Cfg.IDSpace)
+		if !similar {
+			nd = w.genBatchSize()
+		}
+		spec := genBatch(c, w.Cfg, nd, w.Cfg.IDSpace)
 		h := w.Build(spec, nil)
 		w.Add(h)
 		h.Canon = w.extract(h.Seg, "built segment "+h.Name)
-		w.roundtripOne(h)
+		images[h] = w.roundtripOne(h)
 		r.ev("roundtrip %s: %s mode=%d", h.Name, spec.summary(), h.Mode)
 		if len(spec.Docs) > 0 {
 			r.NonTrivial = true
 		}
 	}
+	// the in-memory segments are still what they were after the later builds: a
+	// Persist or a query may come at any time after the build that made them
+	for _, h := range w.Segs {
+		sb, ok := h.Seg.(*zap.SegmentBase)
+		if !ok || images[h] == nil {
+			continue
+		}
+		var again bytes.Buffer
+		if _, err := sb.WriteTo(&again); err != nil {
+			r.fail("C04.writeto", "WriteTo", "WriteTo of %s after the later builds failed: %v", h.Name, err)
+		}
+		if !bytes.Equal(again.Bytes(), images[h]) {
+			r.fail("C04.bytes", "WriteTo", "in-memory segment %s: WriteTo now emits other bytes (%d) than right after its build (%d); %d builds were made since", h.Name, again.Len(), len(images[h]), n)
+		}
+		cn := w.extract(h.Seg, "in-memory segment "+h.Name+" after the later builds")
+		if d := Same(h.Canon, cn, cmpAll); d != "" {
+			r.fail("C04.same", "later", "in-memory segment %s right after its build vs after the later builds: %s", h.Name, d)
+		}
+		r.count("probe.roundtrip.rechecked-after-later-builds")
+	}
 	r.Sample["ops"] = r.Events
 }
 
-func (w *World) roundtripOne(h *SegH) {
+// roundtripOne returns the bytes WriteTo emitted.
+func (w *World) roundtripOne(h *SegH) []byte {
 	r := w.r
 	sb, isBase := h.Seg.(*zap.SegmentBase)
 	if !isBase {
@@ -435,6 +467,7 @@ func (w *World) roundtripOne(h *SegH) {
 		r.fail("C04.same", "Open", "in-memory vs re-opened: %s", s)
 	}
 	r.count("op.roundtrip")
+	return append([]byte(nil), buf.Bytes()...)
 }
 
 // genVectorBoundaryBatch: n documents, each with exactly one vector in the
@@ -447,10 +480,13 @@ func genVectorBoundaryBatch(c *Chooser, g *GenCfg, n int) *BatchSpec {
 		d := DocSpec{ID: id}
 		d.Fields = append(d.Fields, FieldSpec{Name: "_id", Kind: 't', Opts: index.IndexField | index.StoreField, Typ: 't',
 			Value: []byte(id), Len: 1, Toks: []TokSpec{{Term: id, Freq: 1}}})
+		// all vectors distinct (zapx indexes a vector once per segment however
+		// many documents carry it): the field has exactly n vectors
 		vec := make([]float32, p.Dims)
 		for j := range vec {
 			vec[j] = float32((i*(j+3))%11) - 5
 		}
+		vec[0] = float32(i)
 		d.Fields = append(d.Fields, FieldSpec{Name: p.Name, Kind: 'v', Opts: p.Opts, Typ: 'v', Vec: vec, Dims: p.Dims, Sim: p.Sim, Opt: p.Opt})
 		b.Docs = append(b.Docs, d)
 	}
